@@ -7,6 +7,7 @@ use serde_json::Value;
 pub fn replay(kind: &str, lines: &[Value], seed: u64) -> ReplayReport {
     match kind {
         "poly" => replay_poly(lines, seed),
+        "pwint" => replay_pwint(lines, seed),
         _ => {
             eprintln!("unknown replay kind {kind}");
             std::process::exit(2)
@@ -24,6 +25,7 @@ pub fn drive(kind: &str, seed: u64, n: usize, extra: &str, sink: &mut Sink) -> u
         "pwops" => drive_pwops(seed, n, sink),
         "logint" => drive_logint(seed, n, sink),
         "quartic" => drive_quartic(seed, n, extra, sink),
+        "pwint" => drive_pwint(seed, n, extra, sink),
         "calib" => {
             drive_calib(seed, n, sink);
             0
